@@ -463,6 +463,56 @@ structure NewRIB where
   Afts : NewAfts
   deriving DecidableEq, Repr, Inhabited
 
+/-! ## `chk.GetResponseHasEntries` -/
+
+structure GPrefix where
+  Prefix : String
+  deriving DecidableEq, Repr, Inhabited
+
+structure GLabel where
+  /-- `GetLabelUint64()` -/
+  LabelUint64 : Nat
+  /-- the label oneof holds the uint64 member (not the enumeration) -/
+  LabelIsUint64 : Bool
+  deriving DecidableEq, Repr, Inhabited
+
+structure GId where
+  Id : Nat
+  deriving DecidableEq, Repr, Inhabited
+
+structure GIndex where
+  Index : Nat
+  deriving DecidableEq, Repr, Inhabited
+
+/-- the `entry` oneof of `spb.AFTEntry` -/
+inductive GEntryKind where
+  | NextHopGroup (NextHopGroup : Option GId)
+  | NextHop (NextHop : Option GIndex)
+  | Ipv4 (Ipv4 : Option GPrefix)
+  | Ipv6 (Ipv6 : Option GPrefix)
+  | Mpls (Mpls : Option GLabel)
+  deriving DecidableEq, Repr, Inhabited
+
+/-- `spb.AFTEntry` as the helper looks at it -/
+structure GAFTEntry where
+  NetworkInstance : String
+  Entry : Option GEntryKind
+  deriving DecidableEq, Repr, Inhabited
+
+/-- the helper's per-instance cache (a local struct of five Go maps) -/
+structure GetCache where
+  ipv4 : Map String GAFTEntry := []
+  ipv6 : Map String GAFTEntry := []
+  mpls : Map Nat GAFTEntry := []
+  nhg : Map Nat GAFTEntry := []
+  nh : Map Nat GAFTEntry := []
+  deriving Repr, Inhabited
+
+/-- `spb.GetResponse` -/
+structure GetResponseG where
+  Entry : List GAFTEntry
+  deriving DecidableEq, Repr, Inhabited
+
 /-! ## the reconciler (rib/reconciler/reconcile.go `diff`) -/
 
 /-- an entry of one table of a RIB's contents: its key (a string for prefixes, a number for
